@@ -825,7 +825,8 @@ pub fn finish_check(
             "rule": format!("{rule}. evaluations = number of evaluated cases of the kind the distinct count is taken from (never less than the number of simulated runs, which is reported as simulated_runs)"),
             "samples": samples,
             "engine": engine,
-            "runs_per_hour": if wall > 0.0 { (agg.evaluations as f64 / wall * 3600.0) as u64 } else { 0 },
+            "runs_per_hour": if wall > 0.0 { ((add_evals + base_evals) as f64 / wall * 3600.0) as u64 } else { 0 },
+            "seeds_per_hour": if wall > 0.0 { (agg.evaluations as f64 / wall * 3600.0) as u64 } else { 0 },
             "cpu_seconds_in_runs": agg.wall_runs,
             "simulated_time_ticks": agg.ticks,
             "cancel_polls": agg.polls,
